@@ -49,8 +49,11 @@ def generate(rng, tier, idx):
         ends = []
         for _e in range(2):
             r = rng.random()
-            if r < 0.4:
+            if r < 0.25:
                 ends.append(rng.choice(sw))
+            elif r < 0.45:
+                # not ON a tabulated wavelength, but closer to it than single precision can tell
+                ends.append(rng.choice(sw) * (1.0 + rng.choice([-1, 1]) * rng.choice([2e-8, 4e-8, 1e-9])))
             elif r < 0.9 and n > 1:
                 k = rng.randrange(n - 1)
                 ends.append(float('%.6g' % (sw[k] + rng.uniform(0.2, 0.8) * (sw[k + 1] - sw[k]))))
